@@ -437,6 +437,14 @@ def drive(r, spec, respond="random", faults=None, max_steps=80):
                     note("recv", v.feed(part))
                 if lost:
                     break
+        # a command of the script raised (the rest of the chain is skipped, the connection stays up): a loss that the schedule
+        # had planned for later still happens - the server goes away while vncdo sits there
+        flat = [t for e in res["events"] for t in e[1]]
+        if faults and any(t.startswith("chainfailed") for t in flat) and not any(e[0].startswith("lose") for e in res["events"]) \
+                and faults[0][1] in ("lose-clean", "lose-error") and v.reactor.stopped_at is None:
+            kind = faults.pop(0)[1]
+            spec.events.append(("lose", kind == "lose-clean"))
+            note(kind, v.lose(kind == "lose-clean"))
         # after the script: the connection goes down (vncdo closed it, so the transport reports a clean close)
         flat = [t for e in res["events"] for t in e[1]]
         if "close" in flat and not any(e[0].startswith("lose") for e in res["events"]) and v.reactor.stopped_at is None and not getattr(spec, "close_hangs", False):
